@@ -10,6 +10,7 @@
    per-path guard [ok_path] that excludes exactly those shapes. *)
 From Coq Require Import List NArith Bool String.
 From GoGit Require Import Base.Out Model.Status Spec.GitStatus Proofs.C27.
+From GoGit Require Import Model.StatTime Proofs.C27Time.
 Import ListNotations.
 Local Open Scope N_scope.
 
@@ -115,6 +116,37 @@ Theorem C27_shortcut_sound_refuted : exists c sz h,
 Proof. exists 1, 2, [TStage; TWrite 2 2; TTick; TTouchIndex]. split; reflexivity. Qed.
 Print Assumptions C27_shortcut_sound_refuted.
 
+(* --- sub-second time stamps.  metadataMatches compares time.Time values (whole
+   seconds and nanoseconds) with Equal and Before; Model/Status.v keeps one number per
+   stamp.  For well-formed stamps (nanoseconds < 10^9) the code's two comparisons are
+   = and < on the nanosecond counts, so metadata_matches above is the code's test *)
+Theorem C27_ts_compare : forall a b, ts_wf a = true -> ts_wf b = true ->
+  ts_eqb a b = (ts_ns a =? ts_ns b) /\ ts_ltb a b = (ts_ns a <? ts_ns b).
+Proof. intros a b Ha Hb. split; [now apply ts_eqb_ns|now apply ts_ltb_ns]. Qed.
+Print Assumptions C27_ts_compare.
+
+(* the racy-git argument over two-part stamps: the clock may jump to any later
+   (seconds, nanoseconds) value, whatever the granularity of the file system *)
+Theorem C27_shortcut_sound_ns_partial : forall c sz h,
+  no_touch h = true ->
+  tls_matches (tls_run (tls_init c sz) h) = true -> tls_same (tls_run (tls_init c sz) h) = true.
+Proof. exact tls_shortcut_sound. Qed.
+Print Assumptions C27_shortcut_sound_ns_partial.
+
+(* comparing the mtime at whole-second granularity while the racy check keeps
+   nanoseconds is NOT equivalent: a same-second, same-size rewrite followed by a
+   later rewrite of the index (for another path) matches under the coarse test
+   and does not under the code's; the contents differ *)
+Theorem C27_shortcut_seconds_refuted : exists c sz h,
+  tls_matches (tls_run (tls_init c sz) h) = false /\
+  tls_matches_sec (tls_run (tls_init c sz) h) = true /\
+  tls_same (tls_run (tls_init c sz) h) = false.
+Proof.
+  exists 1, 2, [ETo (mkTs 7 500); EWrite 1 2; EStage; ETo (mkTs 7 900); EWrite 2 2; ETo (mkTs 8 0); ETouchIdx].
+  repeat split; reflexivity.
+Qed.
+Print Assumptions C27_shortcut_seconds_refuted.
+
 (* ------------------------------------------------------------ non-vacuity *)
 
 (* a state with staged and unstaged changes, an untracked and an ignored file,
@@ -132,6 +164,11 @@ Example C27_guard_inhabited :
   status ex_state (sort_paths (all_paths ex_state)) =
   [([97], CMod, CUnmod); ([98], CUnmod, CMod); ([99], CUnmod, CMod); ([100], CDel, CUnmod);
    ([101], CAdd, CDel); ([101; 47; 120], CUntracked, CUntracked); ([117], CUntracked, CUntracked)].
+Proof. vm_compute. split; reflexivity. Qed.
+
+Example C27_timeline_ns_inhabited :
+  let h := [ETo (mkTs 7 500); EWrite 1 2; EStage; ETo (mkTs 7 900); EWrite 2 2; ETo (mkTs 8 0); EStage; ETo (mkTs 8 1)] in
+  no_touch h = true /\ tls_matches (tls_run (tls_init 0 0) h) = true.
 Proof. vm_compute. split; reflexivity. Qed.
 
 Example C27_timeline_inhabited :
